@@ -18,7 +18,7 @@ RULE = (
     "trees over {unary -, unary ~, *, +, -, <<, >>, &, |}: every tree shape with <=3 operator nodes (thorough; quick: <=2 plus a seeded third of the "
     "3-node shapes) over a rotating boundary operand pool, plus Hypothesis trees up to 12 leaves with literals in decimal/0x/0X-digits/0b, identifiers bound "
     "to :=, = and labels, redundant parentheses and random spacing.  The tree is evaluated by vlib/model/expr.py and its minimal-parenthesis rendering by a816 in: "
-    "eval_expression_str, .dl (72 bits via >>24/>>48), := and = definitions, lda.w #/jmp.l operands, macro argument, .if, .for bound.  "
+    "eval_expression_str, .dl (72 bits via >>24/>>48), := and = definitions, lda.w #/jmp.l operands, macro argument, .if, .for bound, and inside a macro body whose parameters are the expression's identifiers bound late while the enclosing scope defines the same names with other values (data directive and nested macro argument).  "
     "Non-trivial = >=2 distinct precedence levels, or a unary operator next to a binary one, or stacked unaries, or a redundant parenthesis; distinct by case hash."
 )
 LEVEL_TEXT = ("Differential exploration against an independent evaluator: the operator-combination space up to three operators is enumerated systematically, deeper trees are sampled; "
